@@ -144,7 +144,7 @@ NA_REASON = "check not built yet in this round (planned, see DESIGN.md section 4
 def hooks_commits():
     try:
         out = subprocess.run(["git", "-C", "/repo", "log", "--format=%H %s"], stdout=subprocess.PIPE, text=True).stdout
-        return [l.split()[0] for l in out.splitlines() if " verif hooks" in l or l.split(" ", 1)[1].startswith("verif hooks")]
+        return [l.split()[0] for l in out.splitlines() if " verif hook" in l or l.split(" ", 1)[1].startswith("verif hook")]
     except Exception:
         return []
 
